@@ -66,6 +66,7 @@ type reqInfo struct {
 	from, to   uint64
 	size       uint64
 	done       bool
+	reported   bool // the controller sent the completion
 	realID     string
 	srcF, dstF int // frame indices
 }
@@ -100,6 +101,7 @@ type world struct {
 	onComplete    func(g int, m sim.Msg)
 	ctrlByHarness bool
 	bias          uint64
+	target        int
 	memPort       []sim.RemotePort // real memory controller ports (free-running runs)
 }
 
@@ -206,6 +208,12 @@ func (w *world) hook(g int) {
 		case *pmcpkg.PageMigrationRspFromPMC:
 			switch ctx.Pos {
 			case sim.HookPosPortMsgSend:
+				for _, r := range w.reqs {
+					if r.g == g && !r.reported {
+						r.reported = true
+						break
+					}
+				}
 				w.emit("SendComplete", ab.Rec{"g": g, "dst": string(m.Dst)})
 			case sim.HookPosPortMsgRetrieveOutgoing:
 				w.emit("TakeComplete", ab.Rec{"g": g})
@@ -289,10 +297,29 @@ func (w *world) hook(g int) {
 	}))
 }
 
-// addFrame declares a page frame with seeded random contents.
+// addFrame declares a page frame with seeded contents. Frames are never assumed zero or fresh: contents are
+// random bytes with all-zero 64-byte units mixed in, sometimes an all-zero frame, and units copied from the
+// same offset of an earlier frame (so that a page can equal a destination's old contents in places).
 func (w *world) addFrame(g int, base uint64, n int, rng *rand.Rand) int {
-	for i := 0; i < n; i++ {
-		w.store[g][base+uint64(i)] = byte(rng.Intn(256))
+	allZero := rng.Intn(8) == 0
+	for off := 0; off < n; off += unit {
+		mode := rng.Intn(10)
+		var from *frame
+		if mode >= 3 && mode < 5 && len(w.frs) > 0 {
+			from = &w.frs[rng.Intn(len(w.frs))]
+		}
+		for i := off; i < off+unit && i < n; i++ {
+			var v byte
+			switch {
+			case allZero || mode < 3:
+				v = 0
+			case from != nil && i < from.n:
+				v = w.store[from.g][from.base+uint64(i)]
+			default:
+				v = byte(rng.Intn(256))
+			}
+			w.store[g][base+uint64(i)] = v
+		}
 	}
 	w.frs = append(w.frs, frame{g, base, n})
 	return len(w.frs) - 1
@@ -457,8 +484,32 @@ func (w *world) step(sc *Scenario, s Step) {
 	ok := true
 	switch s.A {
 	case "EnvMig":
-		fsz := uint64(sc.FrameChunks * unit)
-		_ = fsz
+		// a replay that drifted must not break the environment's discipline: neither frame may still be the
+		// source or the destination of a migration the controller has not reported
+		from, to := realAddr(s.Owner, s.From), realAddr(s.G, s.To)
+		busy := func() bool {
+			for _, r := range w.reqs {
+				if r.reported {
+					continue
+				}
+				if (r.g == s.G && r.to == to) || (r.owner == s.G && r.from == to) ||
+					(r.g == s.Owner && r.to == from) {
+					return true
+				}
+			}
+			return false
+		}
+		for i := 0; i < 200 && busy() && !w.panicked; i++ {
+			hold := w.ctrlByHarness
+			w.ctrlByHarness = false // network and memories are served while waiting, completions are not taken
+			w.serveAll()
+			w.ctrlByHarness = hold
+			w.tick(1)
+		}
+		if busy() {
+			ok = false
+			break
+		}
 		ok = w.envMig(s.G, s.Owner, realAddr(s.Owner, s.From), realAddr(s.G, s.To), uint64(s.N*unit), -1, -1)
 		if !ok {
 			w.tick(2)
@@ -624,25 +675,27 @@ func (w *world) dumpStorage() {
 // ------------------------------------------------------------ random environment
 type frameState struct {
 	idx    int
-	used   bool // source or destination of some request
-	busy   bool // destination of a request not complete yet
+	page   bool // holds a page (a migration may read it); otherwise free: stale contents, may be handed out
+	flying bool // source or destination of a migration that is not complete
+	src    *frameState
 	holder *reqInfo
 }
 
 func (w *world) random(rng *rand.Rand, nreq, frameChunks int, serial bool, fs [][]*frameState, onePMC, lazyCtrl bool) {
 	issued := 0
-	mood := 0                   // 0 normal, 1 network stalled, 2 memory stalled, 3 control stalled
-	target := 1 + rng.Intn(w.n) // onePMC: every request goes to this controller (they queue up behind each other)
+	mood := 0          // 0 normal, 1 network stalled, 2 memory stalled, 3 control stalled
+	target := w.target // onePMC: every request goes to this controller (they queue up behind each other)
 	idle, lastSeq := 0, w.rec.Seq
 	for steps := 0; steps < 60*nreq*frameChunks+400 && !w.panicked; steps++ {
 		if rng.Intn(25) == 0 {
 			mood = rng.Intn(4)
 		}
-		// release frames whose migration completed
+		// a completed migration: the destination holds the page now, the source frame is free again
 		for g := 1; g <= w.n; g++ {
 			for _, f := range fs[g] {
-				if f.busy && f.holder.done {
-					f.busy = false
+				if f.flying && f.holder != nil && f.holder.done {
+					f.flying, f.page, f.holder = false, true, nil
+					f.src.flying, f.src.page = false, false
 				}
 			}
 		}
@@ -670,13 +723,13 @@ func (w *world) random(rng *rand.Rand, nreq, frameChunks int, serial bool, fs []
 			}
 			var src, dst *frameState
 			for _, i := range rng.Perm(len(fs[o])) {
-				if !fs[o][i].busy {
+				if fs[o][i].page && !fs[o][i].flying {
 					src = fs[o][i]
 					break
 				}
 			}
 			for _, i := range rng.Perm(len(fs[g])) {
-				if !fs[g][i].used {
+				if !fs[g][i].page && !fs[g][i].flying {
 					dst = fs[g][i]
 					break
 				}
@@ -690,8 +743,8 @@ func (w *world) random(rng *rand.Rand, nreq, frameChunks int, serial bool, fs []
 			}
 			if w.envMig(g, o, w.frs[src.idx].base, w.frs[dst.idx].base, uint64(n*unit), src.idx, dst.idx) {
 				issued++
-				src.used, dst.used, dst.busy = true, true, true
-				dst.holder = w.reqs[len(w.reqs)-1]
+				src.flying, dst.flying = true, true
+				dst.holder, dst.src = w.reqs[len(w.reqs)-1], src
 			}
 		case 2, 3:
 			if mood != 1 {
@@ -812,13 +865,22 @@ func main() {
 				// frames are not contiguous: a gap of one chunk between them
 				base := gpuBase(g) + uint64(k)*uint64((fc+1)*unit)
 				idx := w.addFrame(g, base, fc*unit, rng)
-				fs[g] = append(fs[g], &frameState{idx: idx})
+				fs[g] = append(fs[g], &frameState{idx: idx, page: k < (nfr+1)/2})
 			}
 		}
 		w.emitReset(nil)
 		traces++
 		onePMC := !serial && rng.Intn(3) == 0
 		lazyCtrl := rng.Intn(3) == 0
+		if onePMC { // every request goes to one controller: its frames are all free, the others hold pages
+			tgt := 1 + rng.Intn(n)
+			for g := 1; g <= n; g++ {
+				for _, f := range fs[g] {
+					f.page = g != tgt
+				}
+			}
+			w.target = tgt
+		}
 		w.random(rng, *reqs, fc, serial, fs, onePMC, lazyCtrl)
 		w.finish()
 	}
